@@ -72,6 +72,37 @@ def call(ctx, name, fn, args, kwargs=None, check_alias=True):
     return res, err
 
 
+LIFTABLE = ('local', 'remote', 'base', 'either', 'custom', 'local_then_remote', 'remote_then_local')
+
+
+def lift(base, ds):
+    """the same decisions one level up: a decision on /a/b/k with diff d becomes a decision on /a/b with diff
+    [patch k d]; decisions that end up on the same path then patch the same key (valid per the decision format)"""
+    from nbdime.diff_format import op_patch
+    from nbdime.merging.decisions import _sort_key
+    out = []
+    for d in ds:
+        d2 = copy.deepcopy(d)
+        p = tuple(d['common_path'])
+        ok = d['action'] in LIFTABLE and len(p) >= 1
+        if ok:
+            try:
+                parent = base
+                for k in p[:-1]:
+                    parent = parent[k]
+                parent[p[-1]]
+                ok = not isinstance(parent, str)
+            except Exception:
+                ok = False
+        if ok:
+            for side in ('local_diff', 'remote_diff', 'custom_diff'):
+                if d2.get(side):
+                    d2[side] = [op_patch(p[-1], d2[side])]
+            d2['common_path'] = p[:-1]
+        out.append(d2)
+    return sorted(out, key=_sort_key, reverse=True)
+
+
 def run(ctx):
     import nbdime, nbformat
     from nbdime.merging.generic import decide_merge
@@ -79,7 +110,7 @@ def run(ctx):
     from nbdime.merging.decisions import apply_decisions
     from nbdime.diff_utils import to_diffentry_dicts
     import nbdime.prettyprint as pp
-    ctx.cov['rule'] = ('every public function (diff, diff_notebooks, patch, patch_notebook, decide_merge, decide_notebook_merge, merge_notebooks, apply_decisions, '
+    ctx.cov['rule'] = ('every public function (diff, diff_notebooks, patch, patch_notebook, decide_merge, decide_notebook_merge, merge_notebooks, apply_decisions (also on the decisions lifted one path level), '
                        'pretty_print_notebook / _notebook_diff / _merge_decisions / _diff) on generated generic pairs, notebook pairs and notebook triples; typed '
                        'canonical snapshot of every argument before/after; then every list and dict of the result is mutated and the arguments are snapshotted again; '
                        'non-trivial = every call; distinct by (function, arguments)')
@@ -113,6 +144,15 @@ def run(ctx):
         call(ctx, 'merge_notebooks', lambda x, y, z: merge_notebooks(x, y, z, args), [nb_, nl, nr])
         if ds is not None:
             call(ctx, 'apply_decisions', apply_decisions, [nb_, ds])
+            lds = lift(nb_, ds)
+            r1, e1 = call(ctx, 'apply_decisions(lifted)', apply_decisions, [nb_, lds], check_alias=False)
+            r2, e2 = call(ctx, 'apply_decisions(lifted)', apply_decisions, [nb_, lds], check_alias=False)
+            call(ctx, 'apply_decisions(lifted)', apply_decisions, [nb_, lds])
+            known = mergelib.known_ids(b, l, r)
+            if (e1 is None) != (e2 is None) or (r1 is not None and r2 is not None and
+                                                snap(mergelib.mask_new_ids(plain(r1), known)) != snap(mergelib.mask_new_ids(plain(r2), known))):
+                ctx.violation('applying the same decision list to the same base twice gives different results (%s / %s)' % (e1, e2),
+                              {'kind': 'recompute', 'function': 'apply_decisions', 'base': enc(b), 'decisions': json.dumps(lds, default=list)[:6000]})
             cfg = pp.PrettyPrintConfig(out=io.StringIO(), use_color=False)
             call(ctx, 'pretty_print_merge_decisions', lambda x, y: pp.pretty_print_merge_decisions(x, y, cfg), [nb_, ds], check_alias=False)
         if t % 3 == 0:
